@@ -19,6 +19,7 @@ import glob
 import itertools
 import json
 import os
+from concurrent.futures import ThreadPoolExecutor
 
 from vlib.core import known_for
 from checks import types_common as T
@@ -133,7 +134,7 @@ def cq_premise(p):
     return "(%s %s %s)" % ("PEq" if k == "eq" else "PIneq", cq_term(p[1]), cq_term(p[2]))
 
 
-def cq_case(prog, go_accepts, go_sound):
+def cq_parts(prog):
     for d in prog["decls"].values():
         if d.get("descr"):
             raise Outside("descr")
@@ -143,7 +144,76 @@ def cq_case(prog, go_accepts, go_sound):
     R = T.cq_list("(cl (at_ %d %s) %s)" % (pnum(r["head"][0]), T.cq_list(cq_term(a) for a in r["head"][1]),
                                             T.cq_list(cq_premise(p) for p in r["body"])) for r in prog["rules"])
     I = T.cq_list("(%d, %s)" % (pnum(f[0]), T.cq_list(cq_dconst(c) for c in f[1])) for f in prog["init"])
-    return "(mkCase %s %s %s %s %s)" % (D, R, I, T.cq_bool(go_accepts), T.cq_bool(go_sound))
+    return D, R, I
+
+
+def cq_case(prog, go_accepts, go_sound):
+    return "(mkCase %s %s %s %s %s)" % (cq_parts(prog) + (T.cq_bool(go_accepts), T.cq_bool(go_sound)))
+
+
+def body_preds(rule):
+    return [p[1] for p in rule["body"] if p[0] in ("atom", "neg") and not p[1].startswith(":")]
+
+
+def schedule(prog):
+    """The order in which BoundsAnalyzer.BoundsCheck reaches the undeclared predicates, and how:
+    [(pred, arity, top)] with top = reached first by BoundsCheck's own loop over the sorted predicate
+    symbols (inferAndCheckBounds -> inferRelTypes, `visiting` not set) rather than by a body atom
+    (getOrInferRelTypes).  None when the undeclared predicates are mutually recursive or one of
+    them has no rule (outside the model coq/Analysis/BoundsInfer.v)."""
+    undecl = prog.get("undecl", {})
+    clauses = {}
+    for r in prog["rules"]:
+        clauses.setdefault(r["head"][0], []).append(r)
+    if any(q not in clauses for q in undecl):
+        raise Outside("undeclared predicate without rules")
+    # cycles other than self-loops among the undeclared predicates
+    dep = {q: {p for r in clauses[q] for p in body_preds(r) if p in undecl and p != q} for q in undecl}
+    state = {}
+
+    def cyclic(q):
+        if state.get(q) == 1:
+            return True
+        if state.get(q) == 2:
+            return False
+        state[q] = 1
+        if any(cyclic(p) for p in dep[q]):
+            return True
+        state[q] = 2
+        return False
+
+    if any(cyclic(q) for q in undecl):
+        raise Outside("mutual recursion between undeclared predicates")
+    done, sched = set(), []
+
+    def demand_deps(q):
+        for r in clauses[q]:
+            for p in body_preds(r):
+                if p in undecl and p != q and p not in done:
+                    demand(p)
+
+    def demand(q):
+        demand_deps(q)
+        sched.append((q, undecl[q], False))
+        done.add(q)
+
+    for x in sorted(set(clauses) | {f[0] for f in prog["init"]}):
+        if x in prog["decls"]:
+            for r in clauses.get(x, []):
+                for p in body_preds(r):
+                    if p in undecl and p not in done:
+                        demand(p)
+        elif x in undecl and x not in done:
+            demand_deps(x)
+            sched.append((x, undecl[x], True))
+            done.add(x)
+    return sched
+
+
+def cq_case_inf(prog, go_accepts, go_sound):
+    sched = T.cq_list("(%d, %d, %s)" % (pnum(q), ar, T.cq_bool(top)) for q, ar, top in schedule(prog))
+    D, R, I = cq_parts(prog)
+    return "(mkCaseInf %s %s %s %s %s %s)" % (D, R, I, sched, T.cq_bool(go_accepts), T.cq_bool(go_sound))
 
 
 # ------------------------------------------------------------------ generation
@@ -875,7 +945,7 @@ def load_corpus():
 
 def analyse(ck, progs, outs, stats):
     """Returns [(index, replay dict, suffix)]."""
-    problems, terms, meta = [], [], []
+    problems, terms, meta, terms_inf, meta_inf = [], [], [], [], []
     for i, (prog, o) in enumerate(zip(progs, outs)):
         st = prog.get("stream", "?")
         s = stats["streams"].setdefault(st, {"programs": 0, "accepted": 0, "rejected": 0, "not_analysable": 0,
@@ -927,33 +997,50 @@ def analyse(ck, progs, outs, stats):
         # the model
         if prog.get("to_model"):
             try:
-                terms.append(cq_case(prog, accepted, out["nbad"] == 0))
-                meta.append(i)
+                if prog.get("undecl"):
+                    terms_inf.append(cq_case_inf(prog, accepted, out["nbad"] == 0))
+                    meta_inf.append(i)
+                else:
+                    terms.append(cq_case(prog, accepted, out["nbad"] == 0))
+                    meta.append(i)
             except Outside:
                 stats["judge"]["not encodable"] = stats["judge"].get("not encodable", 0) + 1
-    if terms:
-        verdicts = ck.run_coq("C11", "judge", terms, shard=max(20, (len(terms) + 13) // 14), timeout=3000)
-        names = {0: "agree: accepted, inside the fragment of the theorem", 5: "agree: accepted, outside the fragment (flag)",
-                 6: "agree: rejected", 10: "outside the modelled fragment"}
-        for i, v in zip(meta, verdicts):
-            stats["judge"][names.get(v, JUDGE.get(v, str(v)))] = stats["judge"].get(names.get(v, JUDGE.get(v, str(v))), 0) + 1
-            if v in (0, 5, 6, 10):
-                continue
-            prog, out = progs[i], outs[i]["out"]
-            if v == 11:
-                raise RuntimeError("the Coq model ran out of fuel on:\n" + program_text(prog))
-            if prog.get("stream") in ("n92-shaped", "f7-shaped") and v in (1, 2):
-                stats["judge"]["disagreement outside the sound fragment"] = stats["judge"].get("disagreement outside the sound fragment", 0) + 1
-            rep = {"kind": JUDGE[v], "judge_code": v, "program": program_text(prog), "pre": go_case(prog)["pre"],
-                   "go": {k: out[k] for k in ("stage", "msg", "nbad", "bad") if k in out},
-                   "case": {k: prog[k] for k in ("decls", "rules", "init", "pre")}}
-            if v == 3:
-                if not any(p[0] == i and p[2] == "" for p in problems):
-                    problems.append((i, rep, ""))
-            else:
-                rep["no_longer_checks"] = "correspondence Run.C11.judge (model coq/Analysis/Bounds.v vs analysis/boundscheck.go, " \
-                                          "infercontext.go); bounds_sound_partial is no longer tied to the code"
-                problems.append((i, rep, "no-failing-input-found"))
+    verdicts = []
+    with ThreadPoolExecutor(max_workers=2) as ex:      # the two judges side by side (coqc start-up dominates)
+        jobs = []
+        if terms:
+            jobs.append((meta, ex.submit(ck.run_coq, "C11", "judge", terms, shard=max(20, (len(terms) + 11) // 12),
+                                         timeout=3000)))
+        if terms_inf:
+            jobs.append((meta_inf, ex.submit(ck.run_coq, "C11", "judge_inf", terms_inf,
+                                             shard=max(20, (len(terms_inf) + 3) // 4), tag="inf", timeout=3000)))
+        for m, job in jobs:
+            verdicts += list(zip(m, job.result()))
+    names = {0: "agree: accepted, inside the fragment of the theorem", 5: "agree: accepted, outside the fragment (flag)",
+             6: "agree: rejected", 10: "outside the modelled fragment"}
+    for i, v in verdicts:
+        label = names.get(v, JUDGE.get(v, str(v)))
+        if progs[i].get("undecl"):
+            label = "inferred relation types - " + label
+        stats["judge"][label] = stats["judge"].get(label, 0) + 1
+        if v in (0, 5, 6, 10):
+            continue
+        prog, out = progs[i], outs[i]["out"]
+        if v == 11:
+            raise RuntimeError("the Coq model ran out of fuel on:\n" + program_text(prog))
+        if prog.get("stream") in ("n92-shaped", "f7-shaped") and v in (1, 2):
+            stats["judge"]["disagreement outside the sound fragment"] = stats["judge"].get("disagreement outside the sound fragment", 0) + 1
+        rep = {"kind": JUDGE[v], "judge_code": v, "program": program_text(prog), "pre": go_case(prog)["pre"],
+               "go": {k: out[k] for k in ("stage", "msg", "nbad", "bad") if k in out},
+               "case": {k: prog[k] for k in ("decls", "rules", "init", "pre")}}
+        if v == 3:
+            if not any(p[0] == i and p[2] == "" for p in problems):
+                problems.append((i, rep, ""))
+        else:
+            rep["no_longer_checks"] = "correspondence Run.C11.judge / judge_inf (model coq/Analysis/Bounds.v, BoundsInfer.v vs " \
+                                      "analysis/boundscheck.go, infercontext.go); bounds_sound_partial / " \
+                                      "bounds_sound_inferred_partial are no longer tied to the code"
+            problems.append((i, rep, "no-failing-input-found"))
     return problems
 
 
